@@ -379,10 +379,16 @@ func (env *SpecEnv) lookupIdent(name string) (SV, bool, error) {
 			return sv, true, nil
 		}
 		// package name?
+		var found *types.Package
 		for _, imp := range env.fn.Pkg.Pkg.Imports() {
-			if imp.Name() == name {
-				return SV{pkg: imp}, true, nil
+			if imp.Name() == name || strings.HasSuffix(imp.Path(), "/"+name) {
+				if found == nil || strings.HasPrefix(imp.Path(), "github.com/yandex/mysync") {
+					found = imp
+				}
 			}
+		}
+		if found != nil {
+			return SV{pkg: found}, true, nil
 		}
 	}
 	if p := f.eng.pkgByName[name]; p != nil {
@@ -511,6 +517,8 @@ func (env *SpecEnv) expr(e *Expr) (SV, error) {
 			return SV{}, err
 		}
 		return SV{t: mkQuant(e.Kind, bvs, body), typ: types.Typ[types.Bool]}, nil
+	case "count":
+		return env.count(e)
 	case "field":
 		return env.field(e)
 	case "index":
@@ -844,6 +852,31 @@ func (env *SpecEnv) call(e *Expr) (SV, error) {
 			return SV{}, err
 		}
 		return SV{t: tAnd(tLe(tInt(0), i.t), tLt(i.t, slLen(s.t))), typ: boolT}, nil
+	case "range":
+		// range(lo, hi): the set of integers lo <= i < hi
+		if err := need(2); err != nil {
+			return SV{}, err
+		}
+		lo, err := argv(0)
+		if err != nil {
+			return SV{}, err
+		}
+		hi, err := argv(1)
+		if err != nil {
+			return SV{}, err
+		}
+		srt := arraySort(sortInt, sortBool)
+		r := uf("intrange", srt, lo.t, hi.t)
+		bq, i := freshBVar("i", sortInt)
+		env.f.root.hyps = append(env.f.root.hyps, mkQuant("forall", []BVar{bq}, tEq(tSelect(r, i), tAnd(tLe(lo.t, i), tLt(i, hi.t)))))
+		// one unfolding step (a consequence of the definition; spares the solver an extensionality proof)
+		hm1 := tSub(hi.t, tInt(1))
+		r1 := uf("intrange", srt, lo.t, hm1)
+		bq2, i2 := freshBVar("i", sortInt)
+		env.f.root.hyps = append(env.f.root.hyps, mkQuant("forall", []BVar{bq2}, tEq(tSelect(r1, i2), tAnd(tLe(lo.t, i2), tLt(i2, hm1)))))
+		env.f.root.hyps = append(env.f.root.hyps, tImp(tGt(hi.t, lo.t), tEq(r, tStore(r1, hm1, tTrue()))))
+		env.f.root.hyps = append(env.f.root.hyps, tImp(tLe(hi.t, lo.t), tEq(r, tConstArr(srt, tFalse()))))
+		return SV{t: r}, nil
 	case "seconds":
 		a, err := argv(0)
 		if err != nil {
@@ -968,4 +1001,58 @@ func (env *SpecEnv) call(e *Expr) (SV, error) {
 		return SV{t: app("sf$"+ud.Name, rs, args...), typ: rt}, nil
 	}
 	return SV{}, fmt.Errorf("unknown spec function %s", e.Name)
+}
+
+// count(k T in S :: P(k)): number of members k of the set S with P(k); a function cnt_P of the *set*
+// defined by insertion axioms (independent of any enumeration order).
+func (env *SpecEnv) count(e *Expr) (SV, error) {
+	b := e.Binders[0]
+	ks, gt, err := specSort(b.Type, env)
+	if err != nil {
+		return SV{}, err
+	}
+	set, err := env.expr(e.Args[0])
+	if err != nil {
+		return SV{}, err
+	}
+	if set.t.Sort.Kind != "array" || set.t.Sort.Elem != sortBool || set.t.Sort.Idx != ks {
+		return SV{}, fmt.Errorf("count: set of %s expected, got %s", ks.Name, set.t.Sort.Name)
+	}
+	n := *env
+	n.bvars = map[string]SV{}
+	for k, v := range env.bvars {
+		n.bvars[k] = v
+	}
+	bvName := "cnt$k$" + sanitize(ks.Name)
+	kt := bvarTerm(bvName, ks)
+	n.bvars[b.Name] = SV{t: kt, typ: gt}
+	body, err := n.formula(e.Args[1])
+	if err != nil {
+		return SV{}, err
+	}
+	id := fmt.Sprintf("%d", body.id)
+	pName, cName := "cntP$"+id, "cnt$"+id
+	setSort := set.t.Sort
+	root := env.f.root
+	if _, done := symDecls[cName]; !done {
+		declFun(pName, []*Sort{ks}, sortBool)
+		declFun(cName, []*Sort{setSort}, sortInt)
+	}
+	if root.countDefs == nil {
+		root.countDefs = map[string]bool{}
+	}
+	if !root.countDefs[cName] {
+		root.countDefs[cName] = true
+		bv := BVar{bvName, ks}
+		root.hyps = append(root.hyps, mkQuant("forall", []BVar{bv}, tEq(app(pName, sortBool, kt), body)))
+		bS, S := freshBVar("S", setSort)
+		bk, k := freshBVar("k", ks)
+		cnt := func(x *Term) *Term { return app(cName, sortInt, x) }
+		root.hyps = append(root.hyps,
+			tEq(cnt(tConstArr(setSort, tFalse())), tInt(0)),
+			mkQuant("forall", []BVar{bS}, tGe(cnt(S), tInt(0))),
+			mkQuant("forall", []BVar{bS, bk}, tImp(tNot(tSelect(S, k)),
+				tEq(cnt(tStore(S, k, tTrue())), tAdd(cnt(S), tIte(app(pName, sortBool, k), tInt(1), tInt(0)))))))
+	}
+	return SV{t: app(cName, sortInt, set.t), typ: types.Typ[types.Int]}, nil
 }
